@@ -90,6 +90,7 @@ CORE_OPS = CHOOSE_OPS | {('tensordot', 'labels'), ('outer', 'd'), ('conj', 'd'),
 MIXED_OPS = [('outer', 'd'), ('tensordot', 'axes0'), ('tensordot', 'int1'), ('tensordot', 'full'), ('inner', 'range'), ('add', 'same'), ('sub', 'permuted'),
              ('binary_blockwise', 'subtract'), ('iadd_prefactor_other', 'same'), ('concatenate', 'axis0'), ('grid_outer', 'qtotal_detected'),
              ('setitem', 'slice_npc')]
+MIXED_OPS_A_QUICK = {('outer', 'd'), ('tensordot', 'axes0'), ('add', 'same'), ('concatenate', 'axis0')}
 PROJ_OPS = [('iproject', 'mask'), ('getitem', 'mask')]
 QUICK_CONSUMERS = ('add', 'tensordot', 'sort_legcharge', 'legsort')
 ALL_CONSUMERS = ('add', 'radd', 'tensordot', 'inner', 'sort_legcharge', 'legsort')
@@ -164,7 +165,7 @@ def CASES(tier, seed):
     # every operation with two or more tensor operands, both ways round, followed by the + consumer
     stm = structsA[0]
     for ps in ('reversed_first', 'reversed_others'):
-        for ci, chunk in enumerate(P1._chunks([o for o in MIXED_OPS if quick or True], 2 if quick else 1)):
+        for ci, chunk in enumerate(P1._chunks([o for o in MIXED_OPS if (not quick) or tuple(o) in MIXED_OPS_A_QUICK], 1)):
             cases.append(dict(name=f"A-mixed[mod={stm['mods']},all,{ps},flags=computed,opt=1]ops{ci}:{P1._opsname(chunk)}", fn='inv_case',
                               params=dict(struct=stm, ops=chunk, cplx=False, consume=['add', 'radd'], **dict(c_all, prestate=ps)), opts=OA))
     sBm = P1.structs_B(tier, seed)
